@@ -58,6 +58,11 @@ func workerMain(scratch string) error {
 			if e := out.Flush(); e != nil {
 				return e
 			}
+			if obs.Outcome == "timeout" {
+				// something is stuck in this process (that is the observation); do not try to
+				// tear it down gracefully — the parent starts a fresh worker
+				os.Exit(0)
+			}
 		}
 		if err != nil {
 			if err == io.EOF {
@@ -398,7 +403,7 @@ func reqTimeout() time.Duration {
 			return time.Duration(n) * time.Millisecond
 		}
 	}
-	return 120 * time.Second
+	return 45 * time.Second
 }
 
 func classifyErr(err error, runaway bool) string {
@@ -492,7 +497,6 @@ func runCase(in *In, dir string) *Obs {
 		obs.Detail = "adaptation.Start: " + err.Error()
 		return obs
 	}
-	defer r.Stop()
 	mu.Lock()
 	armed = true
 	mu.Unlock()
@@ -502,6 +506,7 @@ func runCase(in *In, dir string) *Obs {
 		stub.WithTTRPCOptions(nil, []ttrpc.ServerOpt{ttrpc.WithUnaryServerInterceptor(rec.serverIcpt)}))
 	if err != nil {
 		obs.Detail = "stub.New: " + err.Error()
+		r.Stop()
 		return obs
 	}
 	ctx, cancel := context.WithCancel(context.Background())
@@ -509,7 +514,7 @@ func runCase(in *In, dir string) *Obs {
 	startErr := make(chan error, 1)
 	go func() { startErr <- st.Start(ctx) }()
 
-	deadline := time.After(reqTimeout() + 20*time.Second)
+	deadline := time.After(reqTimeout() + 10*time.Second)
 	var res syncResult
 	select {
 	case res = <-syncC:
@@ -536,6 +541,7 @@ func runCase(in *In, dir string) *Obs {
 	}
 	evcancel()
 	st.Stop()
+	r.Stop()
 
 	fill(obs, rec, pl, &mu, &syncCalls)
 	if res.err == nil {
